@@ -418,6 +418,101 @@ def cstr(c):
     return repr(c)
 
 
+class CP(tuple):
+    """(condition string, polarity) pair that compares modulo polarity folding of negative atoms:
+    ('[x != 0]', True) == ('[x == 0]', False); ('!T(x)', True) == ('T(x)', False); likewise 'is not' / 'not in'.
+    Rules build the pairs they read from paths as CP; the expected side may be a plain tuple (tuple.__eq__ defers to the
+    subclass)."""
+    def __new__(cls, cs, pol):
+        return tuple.__new__(cls, _fold(cs, pol))
+
+    def __eq__(self, other):
+        if isinstance(other, tuple) and len(other) == 2 and isinstance(other[0], str):
+            return tuple.__eq__(self, tuple(_fold(other[0], other[1])))
+        return False
+
+    def __ne__(self, other):
+        return not self.__eq__(other)
+
+    __hash__ = tuple.__hash__
+
+
+class Facts(dict):
+    """{condition string: truth} of one path, with lookups modulo polarity folding: Facts(pairs).get('[x != 0]') is the
+    truth of `x != 0` on the path whether the code tested `x != 0` or `x == 0`."""
+    def __init__(self, pairs):
+        dict.__init__(self)
+        for cs, pol in pairs:
+            f = _fold(cs, pol)
+            dict.__setitem__(self, f[0], f[1])
+
+    def get(self, cs, default=None):
+        f = _fold(cs, True)
+        if dict.__contains__(self, f[0]):
+            v = dict.__getitem__(self, f[0])
+            return v if f[1] else (not v)
+        return default
+
+    def __contains__(self, cs):
+        return dict.__contains__(self, _fold(cs, True)[0])
+
+
+def neg(cp):
+    """the opposite outcome of a (condition, polarity) pair"""
+    return CP(cp[0], not cp[1])
+
+
+def _split_top(text, sep=' + '):
+    out, depth, cur, i = [], 0, '', 0
+    while i < len(text):
+        ch = text[i]
+        if ch in '([{':
+            depth += 1
+        elif ch in ')]}':
+            depth -= 1
+        if depth == 0 and text.startswith(sep, i):
+            out.append(cur)
+            cur = ''
+            i += len(sep)
+            continue
+        cur += ch
+        i += 1
+    out.append(cur)
+    return out
+
+
+def _neg_poly_text(text):
+    """text of -P for the pstr text of P (term order is by monomial, so it is unchanged)"""
+    import re as _re
+    out = []
+    for term in _split_top(text):
+        m = _re.match(r'^(-?\d+)\*(.+)$', term)
+        if _re.match(r'^-?\d+$', term):
+            out.append(str(-int(term)))
+        elif m:
+            k = -int(m.group(1))
+            out.append(m.group(2) if k == 1 else '%d*%s' % (k, m.group(2)))
+        else:
+            out.append('-1*' + term)
+    return ' + '.join(out)
+
+
+def _fold(cs, pol):
+    if isinstance(cs, str):
+        if cs.startswith('[') and cs.endswith(' <= 0]'):
+            # a <= b  is  not (b < a)
+            return ('[' + _neg_poly_text(cs[1:-len(' <= 0]')]) + ' < 0]', not pol)
+        if cs.startswith('[') and cs.endswith(' != 0]'):
+            return (cs[:-len(' != 0]')] + ' == 0]', not pol)
+        if cs.startswith('!T('):
+            return (cs[1:], not pol)
+        if cs.startswith('[isnot:'):
+            return ('[is:' + cs[len('[isnot:'):], not pol)
+        if cs.startswith('[notin:'):
+            return ('[in:' + cs[len('[notin:'):], not pol)
+    return (cs, pol)
+
+
 def spec_cond(text, consts=None):
     return cond_str(ast.parse(text, mode='eval').body, FEnv(consts=consts))
 
@@ -667,6 +762,20 @@ def func_truth_formula(func, env):
     return ('or', terms)
 
 
+class Trace(list):
+    """assignments of one variable; equality with another list is multiset equality (the order of assignments that sit in
+    different arms of an if/else is an accident of spelling, and sequencing is decided by the path rules, not here)"""
+    def __eq__(self, other):
+        if isinstance(other, list):
+            return sorted(map(repr, self)) == sorted(map(repr, other))
+        return False
+
+    def __ne__(self, other):
+        return not self.__eq__(other)
+
+    __hash__ = None
+
+
 def assign_trace(func, env, names=None):
     """Assignments (incl. augmented) per variable in source order: name -> [(op, normal form)].
     Targets: plain names, self attributes (key 'self.x') and string-subscript stores (key "x['k']")."""
@@ -688,7 +797,7 @@ def assign_trace(func, env, names=None):
             key = _target_key(t)
             if key is None or (names is not None and key not in names):
                 continue
-            out.setdefault(key, []).append((op, nfs(val, env)))
+            out.setdefault(key, Trace()).append((op, nfs(val, env)))
     return out
 
 
